@@ -314,10 +314,21 @@ def _noop(solution):
     return None
 
 
+class Unbuildable:
+    """Placeholder for an operand whose construction raised (the cases using it report it)."""
+
+    def __init__(self, name, exc):
+        self.name = name
+        self.error = f'{type(exc).__name__}: {str(exc)[:200]}'
+
+
 def build_env(let: dict) -> dict:
     env = {}
     for name, d in let.items():
-        env[name] = build_operand(d, env)
+        try:
+            env[name] = build_operand(d, env)
+        except Exception as e:  # reported by the cases that use the operand
+            env[name] = Unbuildable(name, e)
     return env
 
 
